@@ -8,6 +8,7 @@ import (
 	"net/url"
 	"path"
 	"strings"
+	"sync"
 	"time"
 
 	"github.com/AdguardTeam/AdGuardDNS/internal/agdcache"
@@ -95,7 +96,12 @@ type cacheItem struct {
 // Filter is a filter that matches hosts by their hashes based on a hash-prefix
 // table.  It should be initially refreshed with [Filter.RefreshInitial].
 type Filter struct {
-	logger   *slog.Logger
+	logger *slog.Logger
+
+	// mu makes sure that a result computed with the previous hashes is not put
+	// into resCache after it has been cleared by a refresh.
+	mu *sync.RWMutex
+
 	cloner   *dnsmsg.Cloner
 	hashes   *Storage
 	refr     *refreshable.Refreshable
@@ -127,6 +133,7 @@ func NewFilter(c *FilterConfig) (f *Filter, err error) {
 
 	f = &Filter{
 		logger:   c.Logger,
+		mu:       &sync.RWMutex{},
 		cloner:   c.Cloner,
 		hashes:   c.Hashes,
 		errColl:  c.ErrColl,
@@ -174,6 +181,9 @@ func (f *Filter) FilterRequest(
 	req *internal.Request,
 ) (r internal.Result, err error) {
 	host, qt, cl := req.Host, req.QType, req.QClass
+
+	f.mu.RLock()
+	defer f.mu.RUnlock()
 
 	cacheKey := internal.NewCacheKey(host, qt, cl, false)
 	item, ok := f.itemFromCache(ctx, cacheKey, host)
@@ -448,6 +458,9 @@ func (f *Filter) refresh(ctx context.Context, acceptStale bool) (err error) {
 		// Don't wrap the error, because it's informative enough as is.
 		return err
 	}
+
+	f.mu.Lock()
+	defer f.mu.Unlock()
 
 	count, err = f.hashes.Reset(text)
 	if err != nil {
